@@ -33,3 +33,95 @@ def concrete_complex_step_cases(nd):
     return cnt, bad
 
 
+
+
+# ------------------------------------------------------------------------------------------------------------------
+# small arguments: exact rational reference by power series (|u| <= 1e-3, 14 terms: truncation below 1e-40 relative)
+class _QC(object):
+    """complex number with Fraction components"""
+    __slots__ = ('re', 'im')
+
+    def __init__(self, re, im=0):
+        from fractions import Fraction
+        self.re, self.im = Fraction(re), Fraction(im)
+
+    def __add__(self, o):
+        o = o if isinstance(o, _QC) else _QC(o)
+        return _QC(self.re + o.re, self.im + o.im)
+    __radd__ = __add__
+
+    def __sub__(self, o):
+        o = o if isinstance(o, _QC) else _QC(o)
+        return _QC(self.re - o.re, self.im - o.im)
+
+    def __mul__(self, o):
+        o = o if isinstance(o, _QC) else _QC(o)
+        return _QC(self.re * o.re - self.im * o.im, self.re * o.im + self.im * o.re)
+    __rmul__ = __mul__
+
+    def __truediv__(self, o):
+        o = o if isinstance(o, _QC) else _QC(o)
+        d = o.re * o.re + o.im * o.im
+        return _QC((self.re * o.re + self.im * o.im) / d, (self.im * o.re - self.re * o.im) / d)
+
+
+def _series(u, coef, terms=14):
+    acc, p = _QC(0), _QC(1)
+    for k in range(terms):
+        c = coef(k)
+        if c:
+            acc = acc + p * c
+        p = p * u
+    return acc
+
+
+def _fact(k):
+    import math
+    return math.factorial(k)
+
+
+_SMALL = {
+    'expm1': lambda u: _series(u, lambda k: 0 if k == 0 else __import__('fractions').Fraction(1, _fact(k))),
+    'sin': lambda u: _series(u, lambda k: 0 if k % 2 == 0 else __import__('fractions').Fraction((-1) ** (k // 2), _fact(k))),
+    'sinh': lambda u: _series(u, lambda k: 0 if k % 2 == 0 else __import__('fractions').Fraction(1, _fact(k))),
+    'tan': lambda u: _series(u, lambda k: 0 if k % 2 == 0 else __import__('fractions').Fraction((-1) ** (k // 2), _fact(k))) /
+    _series(u, lambda k: 0 if k % 2 else __import__('fractions').Fraction((-1) ** (k // 2), _fact(k))),
+    'tanh': lambda u: _series(u, lambda k: 0 if k % 2 == 0 else __import__('fractions').Fraction(1, _fact(k))) /
+    _series(u, lambda k: 0 if k % 2 else __import__('fractions').Fraction(1, _fact(k))),
+}
+
+
+def small_argument_cases(Bicomplex, rtol=1e-12):
+    """functions whose real-domain value vanishes at 0 and that the class evaluates without cancellation: each of the four
+    components agrees with the idempotent spec e1 f(z1 - i z2) + e2 f(z1 + i z2) to `rtol` RELATIVE to that component,
+    for base points 1e-9 .. 3e-4 and perturbations of relative size 1e-6 .. 1e-1 (floating point; the spec is evaluated
+    in exact rational arithmetic by power series)"""
+    from fractions import Fraction
+    bad = []
+    cnt = 0
+    with warnings.catch_warnings():
+        warnings.simplefilter('ignore')
+        for name, f in _SMALL.items():
+            for x in (1e-9, 1e-7, 1e-5, -1e-6, 3e-4):
+                for rel in (1e-3, 1e-1, 1e-6):
+                    h = abs(x) * rel
+                    z = Bicomplex(x + 1j * h, h + 0.5j * h)
+                    out = getattr(z, name)()
+                    z1 = _QC(Fraction(float(z.z1.real)), Fraction(float(z.z1.imag)))
+                    z2 = _QC(Fraction(float(z.z2.real)), Fraction(float(z.z2.imag)))
+                    iz2 = _QC(0, 1) * z2
+                    fu, fv = f(z1 - iz2), f(z1 + iz2)
+                    s1 = (fu + fv) * Fraction(1, 2)
+                    s2 = (fu - fv) * _QC(0, Fraction(1, 2))
+                    cnt += 1
+                    got = [out.z1.real, out.z1.imag, out.z2.real, out.z2.imag]
+                    want = [s1.re, s1.im, s2.re, s2.im]
+                    for cname, g, w in zip(('real', 'imag1', 'imag2', 'imag12'), got, want):
+                        g = Fraction(float(g))
+                        if w == 0:
+                            continue
+                        if abs(g - w) > Fraction(rtol) * abs(w):
+                            bad.append(dict(function=name, x=x, h=h, component=cname, got=float(g), spec=float(w),
+                                            relative_error=float(abs(g - w) / abs(w))))
+                            break
+    return cnt, bad
